@@ -720,6 +720,10 @@ struct Hist<L: TL> {
     last_refusal: Option<String>,
     /// a streamed request was refused and no streamed request has completed since
     open_stream_refusal: Option<String>,
+    /// the header window has been completely full at some point (older headers were dropped)
+    was_full: bool,
+    /// the request executed last was refused (Err)
+    just_refused: bool,
     log: Vec<Value>,
     start_desc: Value,
     node_id: PublicKey,
@@ -738,9 +742,10 @@ impl<L: TL> Hist<L> {
         (0..self.remembered).map(|k| self.chain[n - 2 - k].headers).collect()
     }
     fn push_log(&mut self, v: Value) {
-        if self.log.len() < 400 {
-            self.log.push(v);
+        if self.log.len() >= 400 {
+            self.log.drain(0..200);
         }
+        self.log.push(v);
     }
     fn log_tail(&self, n: usize) -> Vec<Value> {
         self.log.iter().rev().take(n).rev().cloned().collect()
@@ -1355,6 +1360,7 @@ fn step<L: TL>(h: &mut Hist<L>, r: &mut Report, cx: &Ctx, op: u64, req: Req, dem
     });
     let out = execute(&mut h.tracker, &req);
     r.eval(1);
+    h.just_refused = matches!(out, Outcome::Refused(_));
     let tag = match &out {
         Outcome::Ok => "Ok".to_string(),
         Outcome::Refused(e) => format!("Err({})", err_tag(e)),
@@ -1423,6 +1429,9 @@ fn step<L: TL>(h: &mut Hist<L>, r: &mut Report, cx: &Ctx, op: u64, req: Req, dem
                 h.remembered = (h.remembered + 1).min(MAX_REORG);
                 if h.remembered == MAX_REORG {
                     r.count("window.full_observed");
+                    if h.chain.len() > MAX_REORG + 1 {
+                        h.was_full = true; // at least one header fell out of the window
+                    }
                 }
             } else {
                 h.chain.pop();
@@ -1464,7 +1473,7 @@ fn step<L: TL>(h: &mut Hist<L>, r: &mut Report, cx: &Ctx, op: u64, req: Req, dem
             if req.defect == Defect::RmBeyondWindow && h.chain.len() > 1 {
                 // the reference knows the true predecessor (the window was unwound or truncated)
                 r.count("remove.beyond-header-window.refused.true_predecessor_supplied");
-                if h.chain.len() > MAX_REORG {
+                if h.was_full {
                     r.count("remove.beyond-header-window.refused.after_unwinding_the_full_window");
                 }
             }
@@ -1773,6 +1782,8 @@ fn run_history<L: TL>(rng: &mut Rng, r: &mut Report, cx: &Ctx, shape: Shape, ops
         time: 1_600_000_000,
         last_refusal: None,
         open_stream_refusal: None,
+        was_full: false,
+        just_refused: false,
         log: vec![],
         start_desc,
         node_id,
@@ -1792,7 +1803,7 @@ fn run_history<L: TL>(rng: &mut Rng, r: &mut Report, cx: &Ctx, shape: Shape, ops
     let mut knocks = 0u32;
     let boundary_h = ((start_height / DIFFCHANGE_INTERVAL) + 1) * DIFFCHANGE_INTERVAL;
     let mut op = 0u64;
-    let budget = if shape == Shape::Window { ops.max(2 * MAX_REORG as u64 + 60) } else { ops };
+    let budget = if shape == Shape::Window { ops.max(3 * MAX_REORG as u64 + 200) } else { ops };
     while op < budget && !h.dead {
         op += 1;
         // late listener registration (watches change between requests)
@@ -1881,10 +1892,9 @@ fn run_history<L: TL>(rng: &mut Rng, r: &mut Report, cx: &Ctx, shape: Shape, ops
             break;
         }
         // --- the clause "a later correct request still succeeds": issue it right after a refusal
-        let just_refused = h.log.last().map(|l| l[2].as_str().map(|s| s.starts_with("Err")).unwrap_or(false)).unwrap_or(false);
-        if just_refused {
+        if h.just_refused {
             op += 1;
-            let do_remove = h.remembered > 0 && rng.chance(if was_add { 30 } else { 70 }, 100);
+            let do_remove = h.remembered > 0 && (rng.chance(if was_add { 30 } else { 70 }, 100) || phase_unwind);
             let follow_streamed = allow_stream && !do_remove && rng.chance(if was_streamed { 60 } else { 15 }, 100);
             let follow = if do_remove {
                 build_remove(&mut h, rng, cx, Defect::None, false)
@@ -1975,7 +1985,7 @@ fn main() {
     report.require("add.accepted.streamed", 100);
     report.require("window.full_observed", 1);
     report.require("window.emptied_by_removals", 20);
-    report.require("remove.beyond-header-window.refused.after_unwinding_the_full_window", 5);
+    report.require("remove.beyond-header-window.refused.after_unwinding_the_full_window", 10);
     report.require("ok.on_zero_filter_header_tip", 10);
     for class in [
         "add.wrong-prev-hash-random",
